@@ -81,6 +81,36 @@ def spelling_pairs(rng, rec, a, b):
         rec.do("same", [x[0], y[0]], keep=False)
 
 
+def registry_trace(rng, tid, prop, names):
+    """The numpy spelling and the numpoly implementation of registered functions on one operand set."""
+    from ..actions import spell_templates
+    from .shape import distinct_poly_spec
+    reset_options()
+    rec = Recorder(tid, prop, timeout_s=20.0)
+    kind = rng.choice(["int", "int", "float"])
+    nm = rng.choice([(0, 1), (0,), (1, 2)])
+    a = rec.new(build_poly(distinct_poly_spec(rng, (2, 2), names=nm, kind=kind)))
+    b = rec.new(build_poly(distinct_poly_spec(rng, (2, 2), names=rng.choice([nm, (0, 2)]), kind=kind, tag=3)))
+    v = rec.new(build_poly(distinct_poly_spec(rng, (2,), names=nm, kind=kind)))
+    w = rec.new(build_poly(distinct_poly_spec(rng, (2,), names=nm, kind=kind, tag=5)))
+    t = rec.new(build_poly(distinct_poly_spec(rng, (2, 2, 2), names=nm, kind=kind)))
+    s = rec.new(build_poly(distinct_poly_spec(rng, (), names=nm, kind=kind, tag=7)))
+    cvals = [rng.choice([-3, -1, 0, 2, 5] if kind == "int" else [-2.5, -0.5, 0.0, 1.5, 2.25]) for _ in range(4)]
+    c = rec.new(build_poly({"shape": [2, 2], "names": [0], "rows": [[0]], "coefs": [cvals], "dtype": gen.dtype_of(kind)}))
+    d = rec.new(build_poly({"shape": [2, 2], "names": [0], "rows": [[0]], "coefs": [[rng.choice([1, 2, 3]) for _ in range(4)]],
+                            "dtype": "int64"}))
+    templates = spell_templates()
+    for name in names:
+        if name in templates:
+            rec.do("spell", [a, b, v, w, t, s, c, d], keep=False, fn=name, np=[], np_out="ret")
+    return rec.to_json()
+
+
+def registered_names():
+    import numpoly
+    return sorted({k.__name__ for k in numpoly.FUNCTION_COLLECTION})
+
+
 def one_trace(rng, tid, prop, probes=None):
     reset_options()
     rec = Recorder(tid, prop, timeout_s=20.0)
@@ -104,9 +134,15 @@ def generate(seed, n, prop="C08", start=0, total=None, **kw):
     allp = probe_list()
     for i in range(start, start + n):
         rng = random.Random("dispatch/%d/%d" % (seed, i))
+        if kw.get("registry"):
+            names = registered_names()
+            per = 6
+            chunk = names[(i * per) % len(names):(i * per) % len(names) + per]
+            out.append(registry_trace(rng, "%s-registry-s%d-%05d" % (prop, seed, i), prop, chunk))
+            continue
         probes = None
         if total:
             per = (len(allp) + total - 1) // total
             probes = allp[i * per:(i + 1) * per]
-        out.append(one_trace(rng, "%s-dispatch-s%d-%05d" % (prop, seed, i), prop, probes=probes, **kw))
+        out.append(one_trace(rng, "%s-dispatch-s%d-%05d" % (prop, seed, i), prop, probes=probes))
     return out
